@@ -46,9 +46,9 @@ import (
 func TestVerifC36(t *testing.T) { vlib.Run("C36", vc36Run) }
 
 func vc36Run(c *vlib.Ctx) {
-	c.Rule("scripts of 6-40 ops {wantlist message (1..6 entries, wants <= limit: want-block/want-have x sendDontHave x priority, cancels, re-wants, v0/v1 alias, identity, oversize CIDs; full or incremental), add block+NotifyNewBlocks, remove block (drained points only), take an outbox channel early, deliver one envelope, drain to quiescence} over 1-3 peers x limit 1..32 x wantHaveReplaceSize {0,16,1024} x targetMessageSize {1,64,16384} x 1-3 task workers x optional request filter / per-peer byte backpressure / engine-wide DONT_HAVE off. Strata: seq (CID universe <= limit/2: neither overflow nor queue truncation possible), ovf-eq (one overflow message against a full ledger whose wants all have the same priority), ovf-mixed (free overflow), full (full wantlists at any time), emptyblk (a zero-length block is stored), dupfull (universe == limit, few deliveries: re-wants/notifies hit a task queue that is at the limit), conc (peers, block adder and drainer on separate goroutines). distinct = FNV of config+script (conc: the observed per-peer response sequences); non-trivial = the run delivered >=1 block and >=1 HAVE/DONT_HAVE and had >=1 effective cancel or >=1 overflow rejection/eviction")
+	c.Rule("scripts of 6-40 ops {wantlist message (1..6 entries, wants <= limit: want-block/want-have x sendDontHave x priority, cancels, re-wants, v0/v1 alias, identity, oversize CIDs; full or incremental), add block+NotifyNewBlocks, remove block (drained points only), take an outbox channel early, deliver one envelope, drain to quiescence} over 1-3 peers x limit 1..32 x wantHaveReplaceSize {0,16,1024} x targetMessageSize {1,64,16384} x 1-3 task workers x optional request filter / per-peer byte backpressure / engine-wide DONT_HAVE off. Strata: seq (CID universe <= limit/2: neither overflow nor queue truncation possible), ovf-shaped (per peer a full ledger with 0-4 block-less wants, adjacent at the bottom of the priority order or scattered, priorities distinct/equal/narrow, then one overflow message with k-1..k+3 newcomers that outrank, tie with or lose against the existing wants), ovf-witness (DESIGN scenario), ovf-mixed (free overflow), full (full wantlists at any time), emptyblk (a zero-length block is stored), dupfull (universe == limit, few deliveries: re-wants/notifies hit a task queue that is at the limit), conc (peers, block adder and drainer on separate goroutines). distinct = FNV of config+script (conc: the observed per-peer response sequences); non-trivial = the run delivered >=1 block and >=1 HAVE/DONT_HAVE and had >=1 effective cancel or >=1 overflow rejection/eviction")
 	c.Cases("seq", c.N(300, 12000), func(k *vlib.Case) { vc36Sequential(k, "seq") })
-	c.Cases("ovf-eq", c.N(150, 6000), vc36OverflowEq)
+	c.Cases("ovf-shaped", c.N(220, 7000), vc36OverflowShaped)
 	c.Cases("ovf-witness", 1, vc36OverflowWitness)
 	c.Cases("ovf-mixed", c.N(120, 5000), func(k *vlib.Case) { vc36Sequential(k, "ovf-mixed") })
 	c.Cases("full", c.N(60, 2500), func(k *vlib.Case) { vc36Sequential(k, "full") })
@@ -1031,23 +1031,7 @@ func (w *vc36World) seqMsg(p peer.ID, full bool, es []vc36Entry) {
 func (w *vc36World) checkOverflow(p peer.ID, base map[cid.Cid]vc36ME, wants map[cid.Cid]vc36Entry, cancels map[cid.Cid]bool, union, got map[cid.Cid]vc36ME, feature string) {
 	k := w.k
 	k.C.Count("overflow_messages", 1)
-	// priorities of the pre-existing wants after the message's re-want updates
-	eq := len(base) == w.limit
-	first := true
-	var p0 int32
-	for c := range base {
-		pr := union[c].prio
-		if first {
-			p0, first = pr, false
-		} else if pr != p0 {
-			eq = false
-		}
-	}
-	prioFeature := "/mixed-priorities"
-	if eq {
-		prioFeature = "/equal-priorities"
-	}
-	prioFeature += feature
+	prioFeature := feature
 	desc := func(c cid.Cid) string {
 		b := "no-block"
 		if w.hasBlock(w.byCid[c]) {
@@ -1427,70 +1411,119 @@ func vc36Sequential(k *vlib.Case, stratum string) {
 	}
 }
 
-// vc36OverflowEq: fill a peer's ledger to the limit with wants of one
-// priority, then send one overflowing message with newcomers of lower, equal
-// and higher priority. The sort direction of the existing wants is irrelevant
-// here, so the overflow relation is fully checked on the unchanged tree.
-func vc36OverflowEq(k *vlib.Case) {
+// vc36OverflowShaped: per peer, fill the ledger to the limit with wants of
+// chosen priorities of which k (0..4) have no local block, then send ONE
+// overflowing message with k-1..k+3 newcomers. Shapes are steered towards the
+// corners of handleOverflow: the block-less wants sit next to each other at
+// the bottom (or anywhere) of the priority order, there are more newcomers
+// than block-less wants, and the surplus newcomers outrank (or tie with, or
+// lose against) the least important wants that do have a block. Priority
+// modes: distinct, all equal, narrow range (ties).
+func vc36OverflowShaped(k *vlib.Case) {
 	r := k.R
 	cfg := vc36PickCfg(k, "seq")
-	cfg.limit = vlib.Pick(r, []int{1, 2, 2, 3, 3, 4, 5, 6, 8, 12, 16, 32})
-	newc := r.Range(1, 6)
-	cfg.nCids = (cfg.limit + newc) * cfg.nPeers
+	cfg.limit = vlib.Pick(r, []int{3, 4, 4, 5, 6, 8, 8, 12, 16, 24, 32})
+	const maxNew = 7
+	cfg.nCids = (cfg.limit + maxNew) * cfg.nPeers
 	cfg.alias = false
 	cfg.filter = false
-	k.Logf("stratum ovf-eq config %s", cfg)
+	k.Logf("stratum ovf-shaped config %s", cfg)
 	w := vc36NewWorld(k, cfg, true)
-	defer w.finish("ovf-eq")
+	defer w.finish("ovf-shaped")
 	h := w.honest()
-	for _, u := range h {
-		if r.Chance(3, 5) {
-			w.seqAdd(u)
-		}
-	}
-	per := cfg.limit + newc
+	per := cfg.limit + maxNew
 	for pi, p := range w.peers {
 		if k.C.Aborted() {
 			break
 		}
 		mine := h[pi*per : (pi+1)*per]
-		P := int32(r.Range(0, 4))
-		// fill in chunks that fit
+		existing, fresh := mine[:cfg.limit], mine[cfg.limit:]
+		nBlockless := vlib.Pick(r, []int{0, 1, 2, 2, 2, 3, 3, 4})
+		if nBlockless > cfg.limit-1 {
+			nBlockless = cfg.limit - 1
+		}
+		mode := vlib.Pick(r, []string{"distinct", "distinct", "equal", "narrow"})
+		prios := make([]int32, cfg.limit)
+		for i := range prios {
+			switch mode {
+			case "distinct":
+				prios[i] = int32(i + 1) // existing[i] has the (i+1)-th lowest priority
+			case "equal":
+				prios[i] = 3
+			default:
+				prios[i] = int32(r.Range(1, 3))
+			}
+		}
+		blockless := map[int]bool{}
+		if r.Chance(2, 3) {
+			for i := 0; i < nBlockless; i++ { // adjacent at the bottom of the order
+				blockless[i] = true
+			}
+		} else {
+			for _, i := range r.Perm(cfg.limit)[:nBlockless] {
+				blockless[i] = true
+			}
+		}
+		k.Logf("peer %s: priority mode %s, %d block-less existing wants %v", pn(p), mode, nBlockless, func() []string {
+			var s []string
+			for i := range existing {
+				if blockless[i] {
+					s = append(s, existing[i].name)
+				}
+			}
+			return s
+		}())
+		for i, u := range existing {
+			if !blockless[i] {
+				w.seqAdd(u)
+			}
+		}
+		// fill, in shuffled order, in chunks that fit
+		order := r.Perm(cfg.limit)
 		for i := 0; i < cfg.limit; {
 			var es []vc36Entry
 			for j := 0; j < 6 && i < cfg.limit; j, i = j+1, i+1 {
 				typ := pb.Message_Wantlist_Block
-				if r.Chance(1, 3) {
+				if r.Chance(1, 4) {
 					typ = pb.Message_Wantlist_Have
 				}
-				es = append(es, vc36Entry{u: mine[i], prio: P, typ: typ, sdh: r.Chance(7, 10)})
+				es = append(es, vc36Entry{u: existing[order[i]], prio: prios[order[i]], typ: typ, sdh: r.Chance(7, 10)})
 			}
 			w.seqMsg(p, false, es)
 		}
 		// the overflowing message
-		var es []vc36Entry
-		nn := r.Range(1, newc)
+		nn := nBlockless + r.Range(-1, 3)
+		if nn < 1 {
+			nn = 1
+		}
+		if nn > maxNew {
+			nn = maxNew
+		}
 		if nn > cfg.limit {
 			nn = cfg.limit
 		}
+		var es []vc36Entry
 		for j := 0; j < nn; j++ {
+			var pr int32
+			switch r.Intn(6) {
+			case 0:
+				pr = int32(r.Range(0, 3)) // around the bottom of the existing order
+			case 1:
+				pr = prios[r.Intn(cfg.limit)] // a tie with some existing want
+			default:
+				pr = int32(cfg.limit + 1 + r.Intn(5)) // outranks every existing want
+			}
+			if r.Chance(4, 5) && !w.storeNow[fresh[j].mhKey] {
+				w.seqAdd(fresh[j])
+			}
 			typ := pb.Message_Wantlist_Block
-			if r.Chance(1, 3) {
+			if r.Chance(1, 4) {
 				typ = pb.Message_Wantlist_Have
 			}
-			es = append(es, vc36Entry{u: mine[cfg.limit+j], prio: P + int32(r.Range(-1, 2)), typ: typ, sdh: r.Chance(7, 10)})
+			es = append(es, vc36Entry{u: fresh[j], prio: pr, typ: typ, sdh: r.Chance(7, 10)})
 		}
-		if r.Chance(1, 4) {
-			c := mine[r.Intn(cfg.limit)]
-			dup := false
-			for _, e := range es {
-				if e.u == c {
-					dup = true
-				}
-			}
-			if !dup {
-				es = append(es, vc36Entry{u: c, cancel: true})
-			}
+		if r.Chance(1, 5) {
+			es = append(es, vc36Entry{u: existing[r.Intn(cfg.limit)], cancel: true})
 		}
 		vlib.Shuffle(r, es)
 		w.seqMsg(p, false, es)
